@@ -576,14 +576,17 @@ impl Formatter {
                 self.writer.write("]");
             }
             Type::Tuple(types) => {
-                self.writer.write("Tuple[");
+                self.writer.write("(");
                 for (i, t) in types.iter().enumerate() {
                     if i > 0 {
                         self.writer.write(", ");
                     }
                     self.format_type(&t.node);
                 }
-                self.writer.write("]");
+                if types.len() == 1 {
+                    self.writer.write(",");
+                }
+                self.writer.write(")");
             }
             Type::Function(params, return_type) => {
                 self.writer.write("(");
